@@ -257,8 +257,15 @@ class C01(fw.Prop):
                 except Exception:  # noqa
                     pass
             back = XDlmsApduFactory.apdu_from_bytes(bs)
-            if canon(back) != canon(o):
-                return "ok " + fw.hx(bs) + " decoded-differs: " + canon(back)[:120] + " != " + canon(o)[:120]
+            want = canon(o)
+            if canon(back) != want:
+                return "ok " + fw.hx(bs) + " decoded-differs: " + canon(back)[:120] + " != " + want[:120]
+            # ... nor may what the caller does with an earlier result: the decoded value is overwritten in place, then the same
+            # bytes are decoded again
+            fw.scribble(back)
+            again = XDlmsApduFactory.apdu_from_bytes(bs)
+            if canon(again) != want:
+                return "ok " + fw.hx(bs) + " second-decode-differs: " + canon(again)[:120] + " != " + want[:120]
             return "ok " + fw.hx(bs)
         sel_hex = None
         if d["k"] == "grn" and d.get("sel"):
@@ -356,6 +363,9 @@ class C01(fw.Prop):
         for off in [None, 0, 1, -1, 60, -60, 840, -840, 330]:
             yield mk(dict(k="dn", lid=5, p=0, c=1, b=0, s=0, dt=[rng.randint(1, 9999), rng.randint(1, 12), rng.randint(1, 28), rng.randint(0, 23),
                                                                    rng.randint(0, 59), rng.randint(0, 59), rng.randint(0, 99) * 10000, off], data=rb(6)))
+        for h in range(100):
+            # every hundredths value (the byte is computed from the microseconds)
+            yield mk(dict(k="dn", lid=h, p=0, c=1, b=0, s=0, dt=[2021, 3, 4, 5, 6, 7, h * 10000, rng.choice([None, 0, 60])], data=rb(2)))
         for key in ("", rb(16), rb(32), rb(127), rb(128), rb(1)):
             for ra in (1, 0):
                 for qos in (0, 1, 255):
